@@ -417,6 +417,104 @@ impl Check for C12Selects {
     }
 }
 
+// ---------------------------------------------------------------- --set bindings in every option
+
+#[derive(Clone, Debug, Serialize, Deserialize)]
+pub struct CasePreset {
+    pub var: (String, String),
+    pub mac: (String, Expr),
+    pub e: Expr,
+    /// 0 --split-by, 1 --filter, 2 --sort-by, 3 --group-by, 4 --select
+    pub position: u8,
+    pub records: Vec<String>,
+}
+
+pub struct C12Preset;
+impl Check for C12Preset {
+    type Case = CasePreset;
+    fn name(&self) -> &'static str {
+        "C12.preset_positions"
+    }
+    fn cases(&self, tier: Tier) -> u64 {
+        tier.pick(30_000, 1_000_000)
+    }
+    fn strategy(&self, _t: Tier) -> BoxedStrategy<CasePreset> {
+        (vec(any::<u32>(), 0..300), 0u8..5)
+            .prop_map(|(tape, position)| {
+                let mut g = Gen::new(&tape, GenCfg { ill: 1, bind_bias: true, exclude: vec!["exec", "trigger", "now", "env", "parse_selection"], ..GenCfg::default() });
+                let mut env = Env::top();
+                // the kind the position wants, so that the option does something
+                let want = [ArrNum, Bool, Num, Str, Any][position as usize];
+                let vk = if g.tape.chance(1, 2) { want } else { *g.tape.pick(LEAF_KINDS) };
+                let vname = g.tape.pick_s(&["v", "w", "foo"]).to_string();
+                let vlit = g.lit(vk, 2);
+                env.vars.push((vname.clone(), vk));
+                let mk = if g.tape.chance(1, 2) { want } else { *g.tape.pick(&[Num, Str, Bool, ArrNum]) };
+                let mbody = g.expr(mk, 2, &env);
+                env.macros.push(("m".to_string(), mk));
+                let e = g.expr(want, 3, &env);
+                let n = 2 + g.tape.below(4);
+                let records = (0..n).map(|_| g.record()).collect();
+                CasePreset { var: (vname, vlit), mac: ("m".to_string(), mbody), e, position, records }
+            })
+            .boxed()
+    }
+    fn check(&self, c: &CasePreset) -> CaseResult {
+        let sp = Spell::CANON;
+        let mut st: Stack = vec![(c.var.0.clone(), Bound::VarLit(c.var.1.clone())), (c.mac.0.clone(), Bound::Macro(c.mac.1.clone()))];
+        let mut fuel = 20_000;
+        let s = match expand(&c.e, &mut st, &mut fuel) {
+            Ok(s) => s,
+            Err(m) => return CaseResult::Discard(m),
+        };
+        let opt = |e: &Expr| -> Vec<String> {
+            let t = print(e, &sp);
+            match c.position {
+                0 => vec![format!("--split-by={}", t)],
+                1 => vec![format!("--filter={}", t)],
+                2 => vec![format!("--sort-by={} DESC", t)],
+                3 => vec![format!("--group-by={}", t)],
+                _ => vec![format!("--select={} = x", t), "--select=.n = n".into()],
+            }
+        };
+        let mut a1 = vec![format!("--set={}={}", c.var.0, c.var.1), format!("--set=@{}={}", c.mac.0, print(&c.mac.1, &sp))];
+        a1.extend(opt(&c.e));
+        let a2 = opt(&s);
+        let input: Vec<u8> = c.records.join("\n").into_bytes();
+        let o1 = run(&a1, &input);
+        let o2 = run(&a2, &input);
+        if o1.res.is_panic() || o2.res.is_panic() {
+            return CaseResult::Fail(format!("panic: {} / {}", o1.res.short(), o2.res.short()));
+        }
+        if !o2.res.is_ok() {
+            return CaseResult::Fail(format!("the substituted configuration is rejected: {} args {:?}", o2.res.short(), a2));
+        }
+        if o1.res != o2.res || o1.stdout != o2.stdout {
+            return CaseResult::Fail(format!(
+                "with --set bindings {:?} prints {} {}, with the bindings substituted by hand {:?} prints {}",
+                a1,
+                o1.res.short(),
+                esc_trunc(&o1.stdout, 300),
+                a2,
+                esc_trunc(&o2.stdout, 300)
+            ));
+        }
+        let uses = mentions(&c.e, Some(&c.var.0), Some(&c.mac.0));
+        let effect = match c.position {
+            0 | 1 => !o1.stdout.is_empty(),
+            3 => o1.stdout.len() > 3,
+            _ => o1.stdout.len() > 3,
+        };
+        CaseResult::Pass(
+            Info::new(uses && effect)
+                .class(["in_split_by", "in_filter", "in_sort_by", "in_group_by", "in_select"][c.position as usize])
+                .class_if(uses, "uses_binding")
+                .class_if(effect, "option_has_an_effect")
+                .obs(json!({"args": a1, "substituted": canon(&s)})),
+        )
+    }
+}
+
 pub fn run_all(ctx: &mut Ctx) {
     ctx.rule = "(subst) expression e (depth <= 4, type-directed, uses ^ inside functional arguments) over a bound variable (literal of any kind) and a bound macro (expression that may use the variable, `.` and `^`), nested set/define incl. shadowing, optional --split-by in front, e at --select position 1..4; oracle: e under (set (define ..)), (define (set ..)) and --set/--set @ must give, per record, exactly the value of the harness' AST-level substitution (all macros inlined at the use site, the variable replaced by its literal, inner set forms kept). (pipe) (| a b) and (| a b c) must equal b applied to a's value via map over [a] (`.` = value, `^` = input) and via --split-by=[a] --select=b. (selects) k copies of one expression interleaved with other selections after optional --split-by/--filter must agree per row. non-trivial = the binding is used and a result exists and (binding used under a lambda or after split or not first select) / stage reads ^ or three stages / expression reads ^ and yields a value".into();
     ctx.assumptions = vec![
@@ -425,9 +523,11 @@ pub fn run_all(ctx: &mut Ctx) {
     ];
     C12Subst.run(ctx);
     C12Pipe.run(ctx);
+    ctx.rule.push_str(". (preset_positions) --set v=literal and --set @m=expression used inside the expression of --split-by, --filter, --sort-by, --group-by or --select: the run must print exactly what the same option prints with the bindings substituted by hand");
     C12Selects.run(ctx);
+    C12Preset.run(ctx);
 }
 
 pub fn checks() -> Vec<Box<dyn DynCheck>> {
-    vec![Box::new(C12Subst), Box::new(C12Pipe), Box::new(C12Selects)]
+    vec![Box::new(C12Subst), Box::new(C12Pipe), Box::new(C12Selects), Box::new(C12Preset)]
 }
